@@ -45,7 +45,7 @@ Definition fromEntropy (entropy : list byte) (wordLen : Z) (lg : Z) : outcome (l
   if divisor =? 0 then Panic "division by zero" else
   let csInt := csInt / divisor in
   let entInt := N.shiftl (be_to_N entropy) csBitLen + csInt in
-  if (wordLen <? 0)%Z then Panic "makeslice: len out of range" else
+  if ((wordLen <? 0) || (17592186044416 <? wordLen))%Z then Panic "makeslice: len out of range" else  (* make([]string, n): 16-byte elements *)
   match words_loop (Z.to_nat wordLen) entInt (list_of lg) [] with
   | Panic w => Panic w
   | Ret wordList =>
@@ -88,12 +88,34 @@ Fixpoint read_loop (need : nat) (got : list byte) (s : script) : (list byte * op
 Definition read_full (need : nat) (s : script) : (list byte * option ioerr) * script :=
   if (need =? 0)%nat then (([], None), s) else read_loop need [] s.
 
+(* the same function with the buffer length as a binary number: executing the model never builds a unary
+   number of the size of the requested buffer (only of the size of data actually delivered);
+   Proofs/Reader.v: read_full_N need = read_full (N.to_nat need) *)
+Fixpoint read_loop_N (need : N) (got : list byte) (s : script) : (list byte * option ioerr) * script :=
+  match s with
+  | [] => ((got, Some (eof_adjust IoEOF (length got))), [])
+  | (d, e) :: rest =>
+    let room := need - N.of_nat (length got) in
+    if N.of_nat (length d) <=? room then
+      let got' := got ++ d in
+      if need <=? N.of_nat (length got') then ((got', None), rest)
+      else match e with
+           | None => read_loop_N need got' rest
+           | Some err => ((got', Some (eof_adjust err (length got'))), rest)
+           end
+    else ((got ++ firstn (N.to_nat room) d, None), (skipn (N.to_nat room) d, e) :: rest)
+  end.
+Definition read_full_N (need : N) (s : script) : (list byte * option ioerr) * script :=
+  if need =? 0 then (([], None), s) else read_loop_N need [] s.
+
 (* ---------- bip39.go: NewMnemonic ---------- *)
 Definition NewMnemonic (length_ : Z) (lang : Z) (s : script) : outcome (list byte * option error) * script :=
   if gate_words length_ then (Ret ([], Some gate_words_err), s) else
   let n := (length_ + Z.quot length_ 3)%Z in
-  if (n <? 0)%Z then (Panic "makeslice: len out of range", s) else
-  let '((buf, err), s') := read_full (Z.to_nat n) s in
+  (* make([]byte, n): a negative length, or one beyond the allocator's limit (2^48 bytes on 64-bit Linux),
+     is the run-time panic "makeslice: len out of range" *)
+  if ((n <? 0) || (281474976710656 <? n))%Z then (Panic "makeslice: len out of range", s) else
+  let '((buf, err), s') := read_full_N (Z.to_N n) s in
   match err with
   | Some e => (Ret ([], Some (ErrIO e)), s')
   | None => (omap (fun m => (m, None)) (fromEntropy buf length_ lang), s')
